@@ -118,13 +118,24 @@ JSON JSON::parse(StringReader& r, bool disable_extensions) {
       }
 
     } else { // decimal
+      // Integer literals that don't fit in an int64 are parsed as floats rather
+      // than being allowed to wrap around
       int_data = 0;
+      double big_data = 0;
+      bool int_overflow = false;
+      uint64_t int_limit = static_cast<uint64_t>(INT64_MAX) + (negative ? 1 : 0);
       while (!r.eof() && isdigit(r.get_s8(false))) {
-        int_data = int_data * 10 + (r.get_s8() - '0');
+        uint64_t digit = r.get_s8() - '0';
+        int_overflow |= (int_data > (int_limit - digit) / 10);
+        int_data = int_data * 10 + digit;
+        big_data = big_data * 10 + digit;
+      }
+      if (int_overflow) {
+        is_int = false;
       }
 
       double this_place = 0.1;
-      float_data = int_data;
+      float_data = int_overflow ? big_data : int_data;
       if (!r.eof() && r.get_s8(false) == '.') {
         is_int = false;
         r.get_s8();
